@@ -240,13 +240,17 @@ package terminal
 //@ ghost GhostBadEscape bool
 //@ -- the custom reader handed to Reader.Readf: returns the unquoted bytes and how many input bytes they stand for;
 //@ -- the bytes are the literal prefix followed by the code points of the escapes ([codepoints], loop invariant)
+//@ pure func isStopByte(c byte) bool = c == '\r' || c == '\n' || c == '"'
+//@ pure func isPlainByte(c byte) bool = c != '\r' && c != '\n' && c != '"' && c != '\\' && c < 0x80
 //@ func unquoteString(b []byte) (v []byte, n int)
 //@   requires len(b) >= 1
 //@   ensures  [zero] n == 0 ==> v == nil
 //@   ensures  [bounds] 0 <= n && len(v) <= n && n <= len(b)
+//@   ensures  [plain;C08] forall k int :: 0 <= k && k < len(b) && isStopByte(b[k]) && (forall j int :: 0 <= j && j < k ==> isPlainByte(b[j])) ==> n == k && (k == 0 ==> v == nil) && (k > 0 ==> len(v) == k && forall j int :: 0 <= j && j < k ==> v[j] == b[j])
 //@   assigns  nothing
 //@ loop 1 (i int)
 //@   invariant 0 <= i && i <= len(b)
+//@   invariant [plain-so-far] forall j int :: 0 <= j && j < i ==> isPlainByte(b[j])
 //@   ghost_entry GhostUnq = ""
 //@   ghost_entry GhostBadUTF8 = false
 //@   ghost_entry GhostBadEscape = false
